@@ -265,9 +265,26 @@ class Parser:
     # -- items
     def file(self):
         items = []
+        self.skipped = []   # (line, message): top-level items outside the subset, skipped
         self.attrs()  # inner attributes of the file
         while self.t.kind != 'eof':
-            it = self.item()
+            start = self.p
+            try:
+                it = self.item()
+            except Unsupported as u:
+                # only this item is outside the subset: skip it and keep going
+                if self.p == start and self.toks[start].kind == 'eof':
+                    raise
+                self.p = start
+                self.attrs()
+                self.visibility()
+                line = self.t.line
+                try:
+                    self.skip_balanced_item()
+                except Unsupported:
+                    raise u
+                self.skipped.append((line, str(u)))
+                continue
             if it is not None:
                 items.append(it)
         return items
@@ -1129,4 +1146,8 @@ class Parser:
 def parse_file(path):
     src = open(path, encoding='utf-8').read()
     toks = lex(src, path)
-    return Parser(toks, path).file()
+    p = Parser(toks, path)
+    items = p.file()
+    parse_file.skipped = getattr(parse_file, 'skipped', {})
+    parse_file.skipped[path] = p.skipped
+    return items
